@@ -15,6 +15,7 @@ Definition fault_of (call : arg) (idx : arg) : option fault :=
       else if sym_eqb c "eventfd" then Some (mkFault SEfd (nat_of idx))
       else if sym_eqb c "epoll_ctl" then Some (mkFault SAdd (nat_of idx))
       else if sym_eqb c "socket" then Some (mkFault SSock (nat_of idx))
+      else if sym_eqb c "keepalive" then Some (mkFault SOpt (nat_of idx))
       else None
   | _ => None
   end.
